@@ -40,6 +40,7 @@ func init() {
 			"0-versus-1-object conventions that the documentation leaves open (Permutations(0), LexicographicPermutations(0), MultisetPermutations(all zero), IntegerPartitions(0), Product(), RestrictedPrefixPermutations(0), PermutationsByPattern(0), TopologicalSorts(0)) are recorded, not judged: nothing or the single empty object are both accepted, exhaustion must still be sticky",
 			"termination inside one Next: a callback invoked more than 16 x (size of the whole unrestricted search tree + 64) times during a single Next is reported as runaway (bounded-progress restatement, decided by a call count, no clock); a Next that spins without calling back is left to the CPU watchdog (key|budget)",
 			"predicates are pure functions of the contents of their argument; less(i,j) is false for i >= j as the documentation asks",
+			"caller-owned arguments: Product, RestrictedPrefixProduct (source: deep copy of n in case it changes) and MultisetPermutations (expands freq into its own array) take a private copy, so overwriting or reusing the caller's slice after construction must not change the enumeration (judged); MultisetCombinations keeps the caller's m and nothing documents otherwise (recorded as not_judged:MultisetCombinations_aliases_m); returned values are overwritten only where the documentation allows it (Partitions, MultisetCombinations.Value)",
 			"nothing is demanded of Value() after exhaustion (it is not called); the block order inside Partitions values and the element order inside MultisetCombinations values are not judged",
 		},
 		Run:            run,
@@ -184,6 +185,10 @@ type kase struct {
 	mon        *cbMon
 	mustPanic  bool // the constructor is documented to panic
 	predDriven bool
+
+	mk             func(arg []int) iface // constructors that take a slice / variadic ints: construct from this caller-owned slice
+	scribbleValues bool                  // overwrite every returned Value (only where the documentation says that is safe)
+	recordOnly     string                // not judged: only record under this observation name whether the reference was matched
 }
 
 type trace struct {
@@ -337,6 +342,27 @@ func (r *runner) run(k *kase) {
 	c.Obs("objects:"+k.api, len(tr.raw))
 	c.ObsMax("objects_in_one_case", len(tr.raw))
 
+	if k.recordOnly != "" {
+		same := pi == nil && !tr.over && tr.lateTrue == 0 && len(tr.raw) == len(k.want)
+		for i := 0; same && i < len(tr.raw); i++ {
+			cv := tr.raw[i]
+			if k.canon != nil {
+				cv, _ = k.canon(cv)
+			}
+			if _, ok := indexOf(k.want, cv); !ok {
+				same = false
+			}
+		}
+		if same {
+			c.Obs(k.recordOnly+":enumeration unaffected", 1)
+		} else if pi != nil {
+			c.Obs(k.recordOnly+":enumeration affected (panic)", 1)
+		} else {
+			c.Obs(k.recordOnly+":enumeration affected", 1)
+		}
+		c.Obs(k.recordOnly, 1)
+		return
+	}
 	if k.mustPanic {
 		if pi != nil && tr.phase == "constructor" {
 			c.Obs("required_panics_seen", 1)
@@ -546,6 +572,16 @@ func vecName(v []int) string {
 	return fmt.Sprintf("len%d[%s]", len(v), strings.Join(parts, ","))
 }
 
+func indexOf(objs [][]int, o []int) (int, bool) {
+	e := enc(o)
+	for i, w := range objs {
+		if enc(w) == e {
+			return i, true
+		}
+	}
+	return -1, false
+}
+
 func firstOf(a [][]int) []int {
 	if len(a) == 0 {
 		return nil
@@ -596,7 +632,23 @@ func multisetCombinationsCase(m []int, k int) *kase {
 		want[i] = refiter.FreqToMultiset(f)
 	}
 	mm := cpInts(m)
-	return &kase{api: "MultisetCombinations", witness: fmt.Sprintf("m=%s,k=%d", vecName(m), k), want: want,
+	var ck *kase
+	mk := func(arg []int) iface {
+		it := itertools.MultisetCombinations(arg, k)
+		return iface{next: func() bool { return it.Next() }, aux: func() []int { return it.FreqValue() }, value: func() []int {
+			v := it.Value()
+			if ck.scribbleValues {
+				// documented: "You may modify the return value."
+				c := cpInts(v)
+				for i := range v {
+					v[i] = -9
+				}
+				return c
+			}
+			return v
+		}}
+	}
+	ck = &kase{api: "MultisetCombinations", witness: fmt.Sprintf("m=%s,k=%d", vecName(m), k), want: want, mk: mk,
 		detail: map[string]interface{}{"m": mm, "k": k},
 		canon: func(raw []int) ([]int, string) {
 			s := cpInts(raw)
@@ -613,10 +665,8 @@ func multisetCombinationsCase(m []int, k int) *kase {
 			}
 			return ""
 		},
-		build: func() iface {
-			it := itertools.MultisetCombinations(cpInts(mm), k)
-			return iface{next: func() bool { return it.Next() }, value: func() []int { return it.Value() }, aux: func() []int { return it.FreqValue() }}
-		}}
+		build: func() iface { return mk(cpInts(mm)) }}
+	return ck
 }
 
 func permutationsCase(n int) *kase {
@@ -642,18 +692,20 @@ func multisetPermutationsCase(freq []int) *kase {
 		tot += f
 	}
 	ff := cpInts(freq)
-	return &kase{api: "MultisetPermutations", witness: "freq=" + vecName(freq), want: refiter.MultisetPermutations(freq), convention: tot == 0, convKey: "all frequencies zero",
+	mk := func(arg []int) iface {
+		it := itertools.MultisetPermutations(arg)
+		return iface{next: func() bool { return it.Next() }, value: func() []int { return it.Value() }}
+	}
+	return &kase{api: "MultisetPermutations", mk: mk, witness: "freq=" + vecName(freq), want: refiter.MultisetPermutations(freq), convention: tot == 0, convKey: "all frequencies zero",
 		ordered: true, orderName: "lexicographic", detail: map[string]interface{}{"freq": ff},
-		build: func() iface {
-			it := itertools.MultisetPermutations(cpInts(ff))
-			return iface{next: func() bool { return it.Next() }, value: func() []int { return it.Value() }}
-		}}
+		build: func() iface { return mk(cpInts(ff)) }}
 }
 
 // Partitions: Value is [][]int; it is flattened (blocks terminated by -1) inside the call and turned into
 // the restricted growth string of the partition by the oracle afterwards.
 func partitionsCase(n int) *kase {
-	k := &kase{api: "Partitions", witness: fmt.Sprintf("n=%d", n), ordered: true, orderName: "lexicographic (restricted growth strings)",
+	var k *kase
+	k = &kase{api: "Partitions", witness: fmt.Sprintf("n=%d", n), ordered: true, orderName: "lexicographic (restricted growth strings)",
 		mustPanic: n < 1,
 		canon: func(raw []int) ([]int, string) {
 			var blocks [][]int
@@ -672,7 +724,8 @@ func partitionsCase(n int) *kase {
 			it := itertools.Partitions(n)
 			return iface{next: func() bool { return it.Next() }, value: func() []int {
 				var flat []int
-				for _, b := range it.Value() {
+				val := it.Value()
+				for _, b := range val {
 					for _, x := range b {
 						if x == -1 {
 							x = -2 // keep the separator unambiguous
@@ -680,6 +733,15 @@ func partitionsCase(n int) *kase {
 						flat = append(flat, x)
 					}
 					flat = append(flat, -1)
+				}
+				if k.scribbleValues {
+					// documented: "It is safe to modify the output of .Value()."
+					for bi, b := range val {
+						for i := range b {
+							b[i] = -9
+						}
+						val[bi] = nil
+					}
 				}
 				return flat
 			}}
@@ -701,12 +763,13 @@ func integerPartitionsCase(n int) *kase {
 
 func productCase(d []int) *kase {
 	dd := cpInts(d)
-	return &kase{api: "Product", witness: "factors=" + vecName(d), want: refiter.Product(d), convention: len(d) == 0,
+	mk := func(arg []int) iface {
+		it := itertools.Product(arg...)
+		return iface{next: func() bool { return it.Next() }, value: func() []int { return it.Value() }}
+	}
+	return &kase{api: "Product", mk: mk, witness: "factors=" + vecName(d), want: refiter.Product(d), convention: len(d) == 0,
 		detail: map[string]interface{}{"factors": dd},
-		build: func() iface {
-			it := itertools.Product(cpInts(dd)...)
-			return iface{next: func() bool { return it.Next() }, value: func() []int { return it.Value() }}
-		}}
+		build:  func() iface { return mk(cpInts(dd)) }}
 }
 
 func distinctIn(p []int, n int) bool {
@@ -760,13 +823,14 @@ func restrictedProductCase(d []int, p pred) *kase {
 		return ""
 	})
 	// documented: with no factors the empty tuple is considered to pass
-	return &kase{api: "RestrictedPrefixProduct", witness: fmt.Sprintf("factors=%s,pred=%s", vecName(d), p.name), mon: m, predDriven: true,
+	mk := func(arg []int) iface {
+		it := itertools.RestrictedPrefixProduct(f, arg...)
+		return iface{next: func() bool { return it.Next() }, value: func() []int { return it.Value() }}
+	}
+	return &kase{api: "RestrictedPrefixProduct", mk: mk, witness: fmt.Sprintf("factors=%s,pred=%s", vecName(d), p.name), mon: m, predDriven: true,
 		want:   refiter.FilterPrefixes(refiter.Product(d), p.f),
 		detail: map[string]interface{}{"factors": dd, "predicate": p.name},
-		build: func() iface {
-			it := itertools.RestrictedPrefixProduct(f, cpInts(dd)...)
-			return iface{next: func() bool { return it.Next() }, value: func() []int { return it.Value() }}
-		}}
+		build:  func() iface { return mk(cpInts(dd)) }}
 }
 
 func permTreeNodes(n int) int64 {
@@ -1157,4 +1221,5 @@ func run(c *engine.Ctx) {
 	})
 
 	runLarge(c)
+	runOwned(c)
 }
